@@ -22,8 +22,8 @@ TAG_MUT = "C13/mut"
 TAG_CORPUS = "C13/corpus"
 
 TIERS = {
-    "quick": dict(seeds=3, generated=120, mutated=160, d3_every=2, aslr_probe=0),
-    "thorough": dict(seeds=12, generated=2500, mutated=3000, d3_every=1, aslr_probe=200),
+    "quick": dict(seeds=3, generated=120, mutated=160, d3_every=2, aslr_probe=0, zoo_step=3),
+    "thorough": dict(seeds=8, generated=8000, mutated=12000, d3_every=1, aslr_probe=300, zoo_step=1),
 }
 
 ESC = b"\x1b"
@@ -31,6 +31,7 @@ PANIC_RE = re.compile(rb"thread '[^']*' \(\d+\) panicked at ([^\n]*)")
 HDR = re.compile(r"(?:,-|╭─)\[ ?([^\]\s]+):(\d+):(\d+) ?\]")
 CODE = re.compile(r"\[([EL]\d+)\]")
 LOC = re.compile(r'Location \{ source_filename: "((?:[^"\\]|\\.)*)", span: (\d+)\.\.(\d+), line_number: (\d+), line_offset: (\d+) \}')
+NAMED_LOC = re.compile(r'(?<![A-Za-z_])name: "((?:[^"\\]|\\.)*)", location: Location \{ source_filename: "((?:[^"\\]|\\.)*)", span: (\d+)\.\.(\d+),')
 ANSI = re.compile(rb"\x1b\[[0-9;]*m")
 
 
@@ -77,7 +78,8 @@ def corpus_sets():
 
 
 MISTAKES = ["dup_pub_fn", "dup_pub_const", "dup_pub_struct", "type_error_in_importer", "error_in_imported",
-            "unresolved_import", "syntax_error", "undefined_in_two_modules"]
+            "unresolved_import", "syntax_error", "undefined_in_two_modules", "cyclic_consts", "cyclic_structs",
+            "cyclic_struct_const", "multibyte_then_error", "triple_duplicate"]
 
 
 def generated_set(seed, i):
@@ -120,6 +122,23 @@ def generated_set(seed, i):
             if pos:
                 j = rng.choice(pos)
                 files[sp.files[b]] = t[:j] + t[j + 1:]
+        elif m == "cyclic_consts":
+            b = rng.randrange(sp.k)
+            files[sp.files[b]] += "\nconst CYA: i32 = CYB + 1;\nconst CYB: i32 = CYC + CYD;\nconst CYC: i32 = CYA + 1;\nconst CYD: i32 = CYC * 2;\n"
+        elif m == "cyclic_structs":
+            b = rng.randrange(sp.k)
+            files[sp.files[b]] += "\nstruct CyA\n{\n\tb: CyB,\n\tc: CyC,\n}\n\nstruct CyB\n{\n\tc: CyC,\n}\n\nstruct CyC\n{\n\ta: CyA,\n}\n"
+        elif m == "cyclic_struct_const":
+            b = rng.randrange(sp.k)
+            files[sp.files[b]] += ("\nconst CYHEAD: usize = 2;\nconst CYALIGN: usize = 4;\nconst CYSIZE: usize = CYHEAD + |:CyPacket| + CYALIGN + CYTAIL;\n"
+                                   "const CYTAIL: usize = CYSIZE + 1;\n\nstruct CyPacket\n{\n\tpayload: [CYSIZE]u8,\n\ttail: [CYTAIL]u8,\n}\n")
+        elif m == "multibyte_then_error":
+            b = rng.randrange(sp.k)
+            ch = rng.choice(["é", "€", "😀", "ß字"])
+            files[sp.files[b]] += ('\nfn zz_mb()\n{\n\tprint!("h%sllo %s", zz_missing_one);\n\tvar q = "%s%s"; var r = zz_missing_two;\n}\n' % (ch, ch, ch, ch))
+        elif m == "triple_duplicate":
+            b = rng.randrange(sp.k)
+            files[sp.files[b]] += "\nfn zz_tri()\n{\n}\n\nfn zz_tri()\n{\n}\n\nfn zz_tri()\n{\n}\n\nconst ZZ_TRI: i32 = 1;\nconst ZZ_TRI: i32 = 2;\nconst ZZ_TRI: i32 = 3;\n"
         elif m == "undefined_in_two_modules":
             for b in range(min(2, sp.k)):
                 files[sp.files[b]] += "\nfn zz_undef%d() -> i32\n{\n\treturn: missing_thing_%d\n}\n" % (b, b)
@@ -129,6 +148,48 @@ def generated_set(seed, i):
     max_imports = max(len(sp.imports[m]) for m in range(sp.k))
     return {"id": "gen:%d" % i, "files": enc, "order": names, "kind": "generated", "mistakes": mistakes,
             "max_imports": max_imports, "run_seed": run_seed(seed, TAG_GEN, i)}
+
+
+ZOO_EXPR = ["7", "x", "cast y", "cast y as i32", "y as i32", "|a|", "a[1]", "s.m", "&x", "zf(x)", "-x", "!b", "[1, 2]",
+            "Zs { m: 2, arr: [0, 0, 0] }", '"text"', "'c'", "true", "x + y", "(x)", "a", "s", "p", "0xff", "1u64",
+            "x << y", "x & 1", "cast y == cast z", "s.arr[1]", "|:Zs|", "zf(cast y)"]
+ZOO_CTX = [
+    "if %s == 1\n\t{\n\t\tx = 2;\n\t}",
+    "if %s == cast b\n\t{\n\t\tx = 2;\n\t}",
+    "var v: bool = %s;",
+    "%s = 1;",
+    "var v = zf(%s, %s);",
+    "var v = %s[0];",
+    "var v = %s.nothing;",
+    "var v = |%s|;",
+    "var v = %s + b;",
+    "var v: &i32 = %s;",
+    "var v = &%s;",
+    "var v = %s as Zs;",
+    "var v = cast %s as [3]i32;",
+    "var v: u8 = %s; var w: i64 = v;",
+    "zf(%s) = %s;",
+]
+
+
+def zoo_sets(step):
+    """A combinatorial zoo of small erroneous programs: every expression form
+    in every context that can draw a diagnostic, so that spans and report
+    rendering are exercised over many label shapes."""
+    sets = []
+    k = 0
+    for ci, ctx in enumerate(ZOO_CTX):
+        for ei, ex in enumerate(ZOO_EXPR):
+            k += 1
+            if k % step:
+                continue
+            stmt = ctx.replace("%s", ex)
+            text = ("struct Zs\n{\n\tm: i32,\n\tarr: [3]i32,\n}\n\nfn zf(q: i32) -> i32\n{\n\treturn: q\n}\n\n"
+                    "fn main() -> i32\n{\n\tvar x: i32 = 1;\n\tvar y: u8 = 2;\n\tvar z: u8 = 3;\n\tvar b: bool = true;\n"
+                    "\tvar a: [3]i32 = [1, 2, 3];\n\tvar s = Zs { m: 1, arr: [1, 2, 3] };\n\tvar p: &i32 = &x;\n\t"
+                    + stmt + "\n\treturn: 0\n}\n")
+            sets.append({"id": "zoo:%d:%d" % (ci, ei), "files": {"zoo.pn": text.encode()}, "order": ["zoo.pn"], "kind": "zoo"})
+    return sets
 
 
 MULTIBYTE = ["é", "€", "😀", "ß", " ", "字"]
@@ -285,7 +346,7 @@ def evaluate_set(s, wd, cfg, rng, stats):
                          {"env": env_extra}))
             break
     # D3: rendering in every colour x charset configuration
-    if stats["sets"] % cfg["d3_every"] == 0 and not panicked:
+    if stats["sets"] % cfg["d3_every"] == 0 or panicked:
         clock, pid = sim_params()
         rs, _ = one_run(wd, order, seeds[0], clock, pid, ["--silent"])
         stats["runs"] += 1
@@ -303,6 +364,8 @@ def evaluate_set(s, wd, cfg, rng, stats):
                 if r.status() != rs.status():
                     viol.append(("render_failure", "%s exits %s but --silent exits %s\n%s" % (where, r.status(), rs.status(), r.err.decode(errors="replace")[-500:]), {}))
                     continue
+                if panicked:
+                    continue    # compile-stage panic, identical with --silent: C02's domain
                 if headers_of(r) != base_heads:
                     viol.append(("render_differs", "%s shows codes %s, baseline %s" % (where, headers_of(r), base_heads), {}))
                 if color == "never" and (ESC in r.out or ESC in r.err):
@@ -381,6 +444,14 @@ def check_locations_structured(s, wd, stats):
                 want = 1 + t[:a].count("\n")
                 if ln != want and not (a >= n):
                     viol.append(("span_not_on_reported_line", "%s span %d..%d starts on line %d but line_number=%d: %s" % (fn, a, b, want, ln, e[:200])))
+            # "covers the offending text", where the diagnostic itself names the text
+            for name, fn, a, b in NAMED_LOC.findall(e):
+                if fn in texts and texts[fn] is not None:
+                    stats["named_spans_checked"] = stats.get("named_spans_checked", 0) + 1
+                    got = texts[fn][int(a):int(b)]
+                    if name not in got and "\\" not in name:
+                        viol.append(("span_does_not_cover_named_text", "%s span %s..%s covers %r but the diagnostic is about %r: %s" %
+                                     (fn, a, b, got, name, e[:200])))
     seen = {}
     for c, d in viol:
         seen.setdefault(c, d)
@@ -407,6 +478,7 @@ def all_sets(seed, tier):
     corpus = corpus_sets()
     singles = [c for c in corpus if c["kind"] == "corpus"]
     sets = list(corpus)
+    sets += zoo_sets(cfg.get("zoo_step", 1))
     sets += [generated_set(seed, i) for i in range(cfg["generated"])]
     sets += [mutated_set(seed, i, singles) for i in range(cfg["mutated"])]
     return sets
@@ -524,7 +596,8 @@ def run(tier, seed):
                                         signature="layout_dependent_output", summary=d[1]))
     n_viol, n_known = report_findings(PROP, findings)
     wall = time.time() - t0
-    sample = encode_set(sets[len(corpus_sets())]) if len(sets) > len(corpus_sets()) else encode_set(sets[0])
+    gen_sets = [x for x in sets if x["kind"] == "generated"]
+    sample = encode_set(gen_sets[0] if gen_sets else sets[0])
     sample["files"] = {k: v[:300] for k, v in sample["files"].items()}
     coverage = {
         "evaluations": tot["runs"],
